@@ -140,7 +140,9 @@ func c16Small(w *mon.W, idx int) {
 	}
 	c16CheckList(w, []string{a})
 	w.Extra("small_universe_ordered_pairs", int64(len(u)))
-	w.Sample(func() interface{} { return mon.D{"a": fmt.Sprintf("%q", a), "against": "all 40 strings of length<=3 over {00,01,ff}"} })
+	w.Sample(func() interface{} {
+		return mon.D{"a": fmt.Sprintf("%q", a), "against": "all 40 strings of length<=3 over {00,01,ff}"}
+	})
 }
 
 func c16Chunks(w *mon.W, idx int) {
@@ -164,7 +166,9 @@ func c16Chunks(w *mon.W, idx int) {
 	}
 	keys = append(keys, string(stem[:l-1]), string(stem), string(stem[:l/2]), "", string(stem))
 	if c16CheckList(w, keys) {
-		w.Sample(func() interface{} { return mon.D{"stem_len": l, "keys": len(keys), "first": fmt.Sprintf("%q", keys[:3])} })
+		w.Sample(func() interface{} {
+			return mon.D{"stem_len": l, "keys": len(keys), "first": fmt.Sprintf("%q", keys[:3])}
+		})
 	}
 }
 
